@@ -13,6 +13,7 @@ mod expr;
 mod gen;
 mod oracle;
 mod reader;
+mod session;
 mod util;
 
 use std::env;
